@@ -635,8 +635,8 @@ Lemma used_changes_only_in_get c op : c_used (snd (fstep c op)) <> c_used c ->
   exists sid ms t, op = OGet sid ms /\ find_strm sid (c_streams c) = Some t /\
     c_used (snd (fstep c op)) = c_used c + (s_highest (snd (get_frame (t_send t) ms (Some (max_offset c t)))) - s_highest (t_send t)).
 Proof.
-  intros Hne. destruct op as [sid d f|sid code|sid|v|sid v|uni v|md bl br un sb su| |sid ms|sid|sid k a b f|sid k|sid];
-    try (exfalso; apply Hne; cbn [fstep]).
+  intros Hne. destruct op as [sid d f|sid code|sid|v|sid v|uni v|md bl br un sb su| |sid ms|sid|sid k a b f|sid k|sid].
+  all: try (match goal with |- exists _ _ _, OGet _ _ = _ /\ _ => fail 1 | _ => exfalso; apply Hne; cbn [fstep] end).
   - destruct (for_send c sid) as [[c1 t]|] eqn:E; [|reflexivity]. destruct (for_send_sum _ _ _ _ E) as (A & B & F1).
     destruct (write (t_send t) d f) as [o s']. cbn [snd upd_send with_streams c_used]. exact B.
   - destruct (for_send c sid) as [[c1 t]|] eqn:E; [|reflexivity]. destruct (for_send_sum _ _ _ _ E) as (A & B & F1).
@@ -657,7 +657,7 @@ Proof.
   - cbn [snd]. destruct (unblock_sum (unblock c false) true) as (A & B). destruct (unblock_sum c false) as (A' & B'). congruence.
   - cbn [fstep] in *. destruct (find_strm sid (c_streams c)) as [t|] eqn:Ef; [|exfalso; apply Hne; reflexivity].
     destruct (s_reset_pending (t_send t) || t_blocked t || s_empty (t_send t)); [exfalso; apply Hne; reflexivity|].
-    exists sid, ms, t. split; [reflexivity|]. split; [reflexivity|].
+    exists sid, ms, t. split; [reflexivity|]. split; [exact Ef|].
     destruct (get_frame (t_send t) ms (Some (max_offset c t))) as [o s']. reflexivity.
   - destruct (find_strm sid (c_streams c)) as [t|] eqn:Ef; [|reflexivity].
     destruct (negb (s_reset_pending (t_send t))); reflexivity.
@@ -666,4 +666,88 @@ Proof.
   - destruct (find_strm sid (c_streams c)) as [t|] eqn:Ef; [|reflexivity].
     destruct (on_reset_delivery (t_send t) k) as [o s']. reflexivity.
   - destruct (from_peer c sid) as [[c1 t]|] eqn:E; [|reflexivity]. destruct (from_peer_sum _ _ _ _ E) as (A & B & F1). exact B.
+Qed.
+
+(* ---------- stream-count limit and RESET_STREAM ---------- *)
+Lemma stream_frames_within_count c gm sid ms mo o c' :
+  freach c gm -> fstep c (OGet sid ms) = (FGet mo o, c') -> is_local c sid = true -> sid / 4 < ms_for c sid.
+Proof.
+  intros R H Hl. cbn [fstep] in H. destruct (find_strm sid (c_streams c)) as [t|] eqn:Ef; [|discriminate].
+  destruct (s_reset_pending (t_send t) || t_blocked t || s_empty (t_send t)) eqn:Eg; [discriminate|].
+  assert (Hb : t_blocked t = false) by (destruct (t_blocked t); [rewrite orb_true_r in Eg; discriminate|reflexivity]).
+  pose proof (i_streams _ _ (freach_inv _ _ R)) as F. rewrite Forall_forall in F. destruct (F t (find_in _ _ _ Ef)) as (_ & _ & _ & D).
+  rewrite (find_id _ _ _ Ef) in D. exact (D Hl Hb).
+Qed.
+
+Lemma reset_within_limit c gm sid code fs c' :
+  freach c gm -> fstep c (OGetReset sid) = (FSender (SResetFrame code fs), c') ->
+  exists t, find_strm sid (c_streams c) = Some t /\ fs = s_highest (t_send t) /\ fs <= t_msdr t /\ t_msdr t <= granted c gm sid.
+Proof.
+  intros R H. cbn [fstep] in H. destruct (find_strm sid (c_streams c)) as [t|] eqn:Ef; [|discriminate].
+  destruct (negb (s_reset_pending (t_send t))); [discriminate|]. cbn [get_reset_frame] in H. inversion H; subst.
+  exists t. destruct (stream_within_limit_l c gm t R (find_in _ _ _ Ef)) as (A & B). rewrite (find_id _ _ _ Ef) in B.
+  split; [reflexivity|]. split; [reflexivity|]. split; [lia|exact B].
+Qed.
+
+(* ---------- witnesses ---------- *)
+Fixpoint guards (c : conn) (ops : list fop) : Prop :=
+  match ops with [] => True | op :: r => pguard c op /\ guards (snd (fstep c op)) r end.
+Definition grun (gm : Z -> Z) (ops : list fop) : Z -> Z := fold_left gstep ops gm.
+
+Lemma freach_run ops : forall c gm, freach c gm -> guards c ops -> freach (frun c ops) (grun gm ops).
+Proof.
+  induction ops as [|op r IH]; intros c gm R G; cbn [frun grun fold_left]; [exact R|].
+  destruct G as (G1 & G2). apply IH; [apply freach_step; assumption|exact G2].
+Qed.
+
+(* C06-F2: reset_stream() on a stream blocked by the stream-count limit puts RESET_STREAM on the wire *)
+Definition ops_f2 : list fop :=
+  [OParams (Some 1000) (Some 100) (Some 100) (Some 100) (Some 1) (Some 1); OHandshakeDone; OReset 4 7].
+
+Lemma reset_on_blocked_stream_witness :
+  exists c gm, freach c gm /\ is_local c 4 = true /\ ms_for c 4 <= 4 / 4 /\
+    fst (fstep c (OGetReset 4)) = FSender (SResetFrame (Some 7) 0).
+Proof.
+  exists (frun (conn_init true) ops_f2), (grun (fun _ => 0) ops_f2). split.
+  - apply freach_run; [apply freach_init|]. cbv. repeat split; discriminate.
+  - vm_compute. repeat split; discriminate.
+Qed.
+
+(* C06-F1: a stream created from remembered (0-RTT) parameters keeps the remembered limit when the handshake
+   delivers a smaller one: highest_offset ends above everything the peer has granted for the stream *)
+Definition ops_f1 : list fop :=
+  [OParams (Some 1000) (Some 100) (Some 100) (Some 100) (Some 4) (Some 4); OSend 0 (zeros 20) false; OGet 0 1000;
+   OParams (Some 1000) (Some 50) (Some 50) (Some 50) (Some 4) (Some 4); OHandshakeDone; OSend 0 (zeros 60) false; OGet 0 1000].
+
+Lemma lowered_parameters_witness :
+  let c := frun (conn_init true) ops_f1 in let gm := grun (fun _ => 0) ops_f1 in
+  exists t, find_strm 0 (c_streams c) = Some t /\ s_highest (t_send t) = 80 /\ granted c gm 0 = 50.
+Proof. vm_compute. eexists. repeat split. Qed.
+
+(* non-vacuity of the guarded statements: limits 0 -> raised by frames, loss and retransmission, two streams *)
+Definition ops_ok : list fop :=
+  [OParams (Some 30) (Some 10) (Some 10) (Some 10) (Some 1) (Some 1); OHandshakeDone;
+   OSend 0 (zeros 25) true; OSend 4 (zeros 5) false; OGet 0 1000; OMaxStreamData 0 40; OGet 0 7; ODeliv 0 false 0 10 false;
+   OGet 0 1000; OGet 0 1000; OMaxStreams false 2; OGet 4 1000; OMaxData 29; OMaxData 31; OGet 0 1000].
+
+Example ok_example :
+  let c := frun (conn_init true) ops_ok in
+  guards (conn_init true) ops_ok /\ c_used c = 30 /\ c_max_data c = 31 /\
+  map (fun t => (t_id t, s_highest (t_send t), t_msdr t)) (c_streams c) = [(0, 25, 40); (4, 5, 10)].
+Proof. split; [cbv; repeat split; discriminate|vm_compute; auto]. Qed.
+
+(* ---------- progress: an eligible stream with pending data, room under both limits and a positive budget
+   gets a frame at its next pending offset ---------- *)
+Lemma unblocked_progress_l c sid ms t start rstop rest :
+  find_strm sid (c_streams c) = Some t -> t_blocked t = false ->
+  s_reset_pending (t_send t) = false -> s_empty (t_send t) = false -> s_reset (t_send t) = None ->
+  s_pending (t_send t) = (start, rstop) :: rest -> start < rstop ->
+  0 < ms -> start < max_offset c t ->
+  exists data fin c', fstep c (OGet sid ms) = (FGet (max_offset c t) (SFrame start data fin), c').
+Proof.
+  intros Hf Hb Hrp He Hr Hp Hlt Hms Hmo. cbn [fstep]. rewrite Hf, Hb, Hrp, He. cbn [orb].
+  unfold get_frame at 1. rewrite Hr, Hp. cbv zeta.
+  assert (E : (if Z.min rstop (start + ms) >? max_offset c t then max_offset c t else Z.min rstop (start + ms)) <=? start = false)
+    by (destruct (Z.min rstop (start + ms) >? max_offset c t) eqn:E1; lia).
+  rewrite E. eexists _, _, _. reflexivity.
 Qed.
